@@ -99,6 +99,65 @@ class Program:
     def text(self):
         return [o.text() for o in self.ops]
 
+    # ------------------------------------------------------------------ specification-level rewrites
+    def exec_gates(self, op):
+        """one-qubit gate names in execution order for a one-qubit gate / wrapper"""
+        return list(reversed(op.gates)) if op.kind == "W" else [op.kind]
+
+    def spec_replace(self, op_id, kind, gates=None):
+        o = self.ops[op_id]
+        o.kind, o.gates, o.obj = kind, gates, None
+
+    def spec_unwrap(self):
+        for o in list(self.ops):
+            if o.kind != "W":
+                continue
+            w = o.q[0]
+            if o.id not in self.wires[w]:
+                continue
+            pos = self.wires[w].index(o.id)
+            new = [self.new_op(g, [w]) for g in reversed(o.gates)]
+            self.wires[w][pos:pos + 1] = [n.id for n in new]
+
+    def spec_remove_identity(self):
+        for o in self.ops:
+            if o.kind == "I":
+                self.remove(o.id)
+
+    def spec_group(self):
+        for w in [w for w in self.wires if w[0] in "ep"]:
+            ids = self.wires[w]
+            out, run = [], []
+
+            def flush():
+                if run:
+                    ex = []
+                    for i in run:
+                        ex += self.exec_gates(self.ops[i])
+                    out.append(self.new_op("W", [w], gates=list(reversed(ex))).id)
+                    run.clear()
+            for i in ids:
+                if self.ops[i].kind in ONEQ or self.ops[i].kind == "W":
+                    run.append(i)
+                else:
+                    flush()
+                    out.append(i)
+            flush()
+            self.wires[w] = out
+
+    def signature(self, op):
+        return (CLS[op.kind], tuple(op.q), op.c, tuple(CLS[g] for g in op.gates) if op.kind == "W" else None)
+
+    def add_register(self, t):
+        n = {"e": self.n_e, "p": self.n_p, "c": self.n_c}[t]
+        self.wires[(t, n)] = []
+        if t == "e":
+            self.n_e += 1
+        elif t == "p":
+            self.n_p += 1
+        else:
+            self.n_c += 1
+
     def to_json(self):
         return {"n_e": self.n_e, "n_p": self.n_p, "n_c": self.n_c, "steps": self.steps}
 
